@@ -239,6 +239,70 @@ Section StoreLemmas.
         unfold c14_mdarray_get. apply E4. intros Q. apply Hn. left.
         apply (c14_injective mdst idx t U Vd); [rewrite HE; auto|lia].
   Qed.
+  Lemma c14_copy_loop_acc_spec : forall mdst (store : list T) acc h msrc tuples cont,
+    c14_wf mdst -> c14_unique mdst -> c14_ext mdst = c14_ext msrc ->
+    c14_required_span_size mdst <= Z.of_nat (length cont) ->
+    (forall t, In t tuples -> c14_valid t (c14_ext msrc)) ->
+    (forall t, c14_valid t (c14_ext msrc) -> exists v, c14_view_get store acc h msrc t = Some v) ->
+    exists cont', c14_copy_loop_acc cont mdst store acc h msrc tuples = Some cont' /\ length cont' = length cont /\
+      forall t, c14_valid t (c14_ext msrc) ->
+        (In t tuples -> c14_mdarray_get cont' mdst t = c14_view_get store acc h msrc t) /\
+        (~ In t tuples -> c14_mdarray_get cont' mdst t = c14_mdarray_get cont mdst t).
+  Proof.
+    intros mdst store acc h msrc tuples. induction tuples as [|idx rest IH]; intros cont W U HE Hsz Hval Hsrc.
+    - exists cont. simpl. repeat split; auto. intros [].
+    - simpl. assert (Vi : c14_valid idx (c14_ext msrc)) by (apply Hval; left; auto).
+      destruct (Hsrc idx Vi) as [v Hv]. rewrite Hv.
+      assert (Vd : c14_valid idx (c14_ext mdst)) by (rewrite HE; auto).
+      pose proof (c14_in_range mdst idx W Vd) as R.
+      unfold c14_mdarray_set.
+      destruct (c14_set_spec cont (c14_map mdst idx) v ltac:(lia)) as [c1 [E1 [E2 [E3 E4]]]].
+      rewrite E1.
+      destruct (IH c1 W U HE ltac:(lia) ltac:(intros; apply Hval; right; auto) Hsrc) as [c2 [F1 [F2 F3]]].
+      exists c2. split; [auto|]. split; [lia|].
+      intros t Vt. destruct (F3 t Vt) as [G1 G2]. split.
+      + intros [<-|Hin]; [|auto].
+        destruct (in_dec (list_eq_dec Z.eq_dec) idx rest) as [Hin|Hnin]; [auto|].
+        rewrite G2 by auto. unfold c14_mdarray_get. rewrite E3. auto.
+      + intros Hn. rewrite G2 by (intros Q; apply Hn; right; auto).
+        unfold c14_mdarray_get. apply E4. intros Q. apply Hn. left.
+        apply (c14_injective mdst idx t U Vd); [rewrite HE; auto|lia].
+  Qed.
+
+  (* the default-accessor definitions are the instance acc = c14_default_acc *)
+  Lemma c14_view_get_default : forall (store : list T) base m idx,
+    c14_view_get store c14_default_acc base m idx = c14_mdspan_get store base m idx.
+  Proof. reflexivity. Qed.
+
+  Lemma c14_copy_loop_default : forall mdst (store : list T) base msrc tuples cont,
+    c14_copy_loop_acc cont mdst store c14_default_acc base msrc tuples = c14_copy_loop cont mdst store base msrc tuples.
+  Proof.
+    intros mdst store base msrc tuples. induction tuples as [|idx rest IH]; intros cont; simpl; [reflexivity|].
+    rewrite c14_view_get_default. destruct (c14_mdspan_get store base msrc idx); [|reflexivity].
+    destruct (c14_mdarray_set cont mdst idx t); auto.
+  Qed.
+
+  (* element access through an arbitrary accessor: the cell is acc(handle, map idx); it is inside the storage
+     whenever the accessor sends [0, required_span_size) into the storage; distinct tuples reach distinct cells
+     whenever the accessor is injective there *)
+  Lemma c14_view_access_acc : forall (store : list T) (acc : c14_accessor) h m idx, c14_wf m -> c14_valid idx (c14_ext m) ->
+    (forall k, 0 <= k < c14_required_span_size m -> 0 <= acc h k < Z.of_nat (length store)) ->
+    c14_view_get store acc h m idx = c14_get store (acc h (c14_map m idx)) /\
+    0 <= c14_map m idx < c14_required_span_size m /\
+    exists v, c14_view_get store acc h m idx = Some v.
+  Proof.
+    intros store acc h m idx W V Hacc. pose proof (c14_in_range m idx W V) as R.
+    split; [reflexivity|]. split; [auto|]. apply c14_get_inside. apply Hacc; auto.
+  Qed.
+
+  Lemma c14_view_cells_distinct : forall (acc : c14_accessor) h m i j, c14_wf m -> c14_unique m ->
+    c14_valid i (c14_ext m) -> c14_valid j (c14_ext m) ->
+    (forall k k', 0 <= k < c14_required_span_size m -> 0 <= k' < c14_required_span_size m -> acc h k = acc h k' -> k = k') ->
+    c14_view_cell acc h m i = c14_view_cell acc h m j -> i = j.
+  Proof.
+    intros acc h m i j W U Vi Vj Inj Q. unfold c14_view_cell in Q.
+    apply (c14_injective m i j U Vi Vj). apply Inj; auto using c14_in_range.
+  Qed.
 End StoreLemmas.
 
 (* ------------------------------------------------------------------ conversions between layouts *)
@@ -373,6 +437,36 @@ Proof.
   rewrite C1. exists cont. split; [reflexivity|]. split; [lia|].
   intros t Vt. apply (C3 t Vt). apply c14_in_tuples; auto.
 Qed.
+
+(* the same for a view with an ARBITRARY accessor policy: the copy goes through the accessor, so the new array
+   holds exactly the view's elements whatever cells the accessor designates *)
+Lemma c14_mdarray_from_mdspan_acc_ok : forall (T : Type) (dflt : T) l store (acc : c14_accessor) h msrc,
+  l <> C14_Stride -> c14_wf msrc -> c14_nonneg (c14_ext msrc) ->
+  (forall t, c14_valid t (c14_ext msrc) -> exists v, c14_view_get store acc h msrc t = Some v) ->
+  forall mdst, c14_relayout l msrc = Some mdst ->
+  exists cont, c14_mdarray_from_mdspan_acc dflt l store acc h msrc = Some (cont, mdst) /\
+    Z.of_nat (length cont) = c14_required_span_size mdst /\
+    forall t, c14_valid t (c14_ext msrc) -> c14_mdarray_get cont mdst t = c14_view_get store acc h msrc t.
+Proof.
+  intros T dflt l store acc h msrc Hl W HN Hsrc mdst HR.
+  unfold c14_mdarray_from_mdspan_acc. rewrite HR.
+  pose proof (c14_relayout_lay _ _ _ HR) as HLay.
+  assert (HE : c14_ext mdst = c14_ext msrc).
+  { destruct (c14_relayout_ok l msrc mdst (map (fun _ => 0) (c14_ext msrc)) W ltac:(rewrite map_length; auto) HR); auto. }
+  assert (Wd : c14_wf mdst) by (unfold c14_wf; rewrite HLay; destruct l; auto; congruence).
+  assert (Ud : c14_unique mdst) by (unfold c14_unique; rewrite HLay; destruct l; auto; congruence).
+  assert (Hrss : c14_required_span_size mdst = c14_md_size msrc).
+  { unfold c14_required_span_size, c14_md_size. rewrite HLay, HE. destruct l; auto; congruence. }
+  pose proof (c14_prod_nonneg _ HN) as HP.
+  assert (Hlen : Z.of_nat (length (repeat dflt (Z.to_nat (c14_md_size msrc)))) = c14_md_size msrc).
+  { rewrite repeat_length. unfold c14_md_size. rewrite c14_product_prod. lia. }
+  destruct (c14_copy_loop_acc_spec mdst store acc h msrc (c14_tuples (c14_ext msrc))
+              (repeat dflt (Z.to_nat (c14_md_size msrc))) Wd Ud HE ltac:(lia)
+              ltac:(intros t Ht; apply c14_in_tuples; auto) Hsrc) as [cont [C1 [C2 C3]]].
+  rewrite C1. exists cont. split; [reflexivity|]. split; [lia|].
+  intros t Vt. apply (C3 t Vt). apply c14_in_tuples; auto.
+Qed.
+
 
 (* ------------------------------------------------------------------ span *)
 Lemma c14_span_subspan_ok : forall s o c s', c14_span_subspan s o c = Some s' -> 0 <= o ->
